@@ -320,7 +320,7 @@ def work_items(tier):
         for r in [None] + c02.D[:6] + c02.SYM[:1]:
             if c02.legal((d,), r):
                 work.append(("base", [d], r, c02.S, c02.S[:6], True))
-    D2 = c02.D if tier == "thorough" else ["a", "a b", "b a", "#a b", "2 a", "*v", "*#v", "*v a"]
+    D2 = c02.D if tier == "thorough" else ["a", "a b", "b a", "#a b", "2 a", "*v", "*#v", "*v a", "a *v b", "#a *#v"]
     for sig in itertools.product(D2, repeat=2):
         work.append(("base", list(sig), None, c02.S if tier == "thorough" else c02.S[:7], [()], True))
         for r in (["a", "*v a"] if tier == "thorough" else ["a"]):
